@@ -185,7 +185,9 @@ func drawMask(rt *rapid.T, s string, ex []bool) string {
 // c10Witnesses: complete inputs exercising each folding site.
 var c10Witnesses = []string{"1 union select 1", "1 union all select 1", "1 or 1=1", "1 and 1=1", "1 or not 1", "1 or 1 in (1)", "1 or 1 not in (1)", "1 or 'a' like ('a')", "1 or 'a' not like ('b')", "1 or user()=1", "1 or user_id()=1", "1 or current_user()=1", "1 or localtimestamp()=1", "1 or database()=1", "1 or password('a')=1",
 	"1 union select 1 into outfile 'x'", "1 union select 1 into dumpfile 'x'", "1;if 1=1 select 1", "1; if(1=1) select 1", "1 or 0x1f=0x1f", "1 or 0b01=1", "1 or 1e5=1e5", "1 or 1.5f=1", "1 or 1d=1", "1funion select 1", "1 or n'a'=n'a'", "1 or e'a'='a'", "1 or b'01'=1", "1 or x'1f'=1", "1 or q'(a)'='a'", "1 or nq'(a)'='a'", "1 or u&'a'='a'",
-	"1 or 'a' collate latin1_bin = 'a'", "1 and sleep(5)", "1 or 1 is not null", "1 group by 1", "1 or 1::int=1", "1 and `sleep`(5)", "1 union select @@version", "1 union select * from information_schema.tables", "1 or true", "1 xor 1", "1 div 1 or 1", "x' or 1=1 -- sp_password", "1 /*!union*/ select 1", "1 or \\N is null", "$a$x$a$ or 1=1", "1 or q'axa'='x'", "1 procedure analyse()", "1 waitfor delay '0:0:5'", "1; exec xp_cmdshell 'x'", "1 or 1 between 0 and 2", "1 or 1 sounds like 1", "1 union select 1 for update", "1 at time zone 'x' or 1", "select 1 with rollup"}
+	"1 or 'a' collate latin1_bin = 'a'", "1 and sleep(5)", "1 or 1 is not null", "1 group by 1", "1 or 1::int=1", "1 and `sleep`(5)", "1 union select @@version", "1 union select * from information_schema.tables", "1 or true", "1 xor 1", "1 div 1 or 1", "x' or 1=1 -- sp_password", "1 /*!union*/ select 1", "1 or \\N is null", "$a$x$a$ or 1=1", "1 or q'axa'='x'", "1 procedure analyse()", "1 waitfor delay '0:0:5'", "1; exec xp_cmdshell 'x'", "1 or 1 between 0 and 2", "1 or 1 sounds like 1", "1 union select 1 for update", "1 at time zone 'x' or 1", "select 1 with rollup",
+	// a phrase whose second word is glued to '.' or a back-tick, or whose first word is back-quoted / bracketed
+	"x' natural join`t` --", "1 union all select`a`", "1 waitfor delay.1", "x' into outfile`a` --", "`union` all select 1", "1 group by`a`", "1 order by.1", "x' natural left join`t` --", "1;insert into`t`values(1)", "1 union select`password`from`users`"}
 
 func TestC10(t *testing.T) {
 	c := NewCheck(t, "C10", "a case is a pair (s, s') where s' re-assigns the case of ASCII letters of s outside the exempt positions (letter after backslash, letter runs adjacent to $, letters occurring after some q'/Q', letters inside sp_password); oracle: IsSQLi(s') == IsSQLi(s) on verdict and fingerprint; pairs with s' == s or an illegal re-assignment are not counted; non-trivial = >= 1 letter flipped and (a letter of a folding-site witness flipped, or verdict true, or s contains a keyword-table word); deterministic parts duplicate-free, random parts deduplicated by FNV-64")
@@ -245,6 +247,22 @@ func TestC10(t *testing.T) {
 		w.Judge(pair(s, maskCase(s, ex, 1, 0)))
 		w.Judge(pair(s, maskCase(s, ex, 0, 0)))
 		w.Judge(pair(s, maskCase(s, ex, 2, 0)))
+	})
+
+	// (2b) long inputs (>= 64 bytes) with invalid UTF-8 or case-folding code points in front of the attack
+	p = c.rec.NewPart("long_prefixed_attacks_masks", "every 7th attack member behind \\xe9t\\xe9' / U+0131 / U+017F prefixes and padded to 64..96 bytes x {upper, lower, alternating}", false, true, "")
+	c.ParRange(p, int64(len(att)/7), func(w *Worker, k int64) {
+		a := att[k*7]
+		for _, pre := range []string{"\xe9t\xe9' ", "\xbf' ", "caf\xc3\xa9' ", "\xe9\xe9\xe9 "} {
+			s := pre + a + " -- "
+			for len(s) < 64+int(k%33) {
+				s += "x"
+			}
+			ex := sqliExempt(s)
+			for _, m := range []int{0, 1, 2} {
+				w.Judge(pair(s, maskCase(s, ex, m, 0)))
+			}
+		}
 	})
 
 	// (3) rapid
